@@ -26,7 +26,10 @@ type vhMember struct {
 	off  int
 }
 
-// a stored-members archive: [prefix] member0 [gap] member1 directory end
+// bytes between the last member and the directory (set by the harness that wants them)
+var vhZipTail []byte
+
+// a stored-members archive: [prefix] member0 [gap] member1 [tail] directory end
 func vhZip(prefix, gap int, ms []*vhMember) []byte {
 	var f bytes.Buffer
 	f.Write(vhBytes("prefix", prefix))
@@ -39,6 +42,7 @@ func vhZip(prefix, gap int, ms []*vhMember) []byte {
 		f.WriteString(m.name)
 		f.Write(m.data)
 	}
+	f.Write(vhZipTail)
 	cdStart := f.Len()
 	for _, m := range ms {
 		binary.Write(&f, binary.LittleEndian, zipCentralDir{Signature: directoryHeaderSignature, ReaderVersion: zip20, CompressedSize: uint32(len(m.data)), UncompressedSize: uint32(len(m.data)), FilenameLen: uint16(len(m.name)), Offset: uint32(m.off)})
@@ -92,8 +96,11 @@ func VH_C03_ZipMangle() {
 	vhMaxLen(400)
 	prefix := vhConcretize(vhInt("leading-bytes", 0, 1), 2)
 	gap := vhConcretize(vhInt("gap-bytes", 0, 1), 2)
+	tail := vhConcretize(vhInt("bytes-before-directory", 0, 1), 2)
+	vhZipTail = vhBytes("tail", tail)
 	ms := []*vhMember{{name: "a", data: vhBytes("data0", 1)}, {name: "S", data: vhBytes("data1", 2)}, {name: "b", data: vhBytes("data2", 1)}}
 	file := vhZip(prefix, gap, ms)
+	vhZipTail = nil
 	d, err := Read(bytes.NewReader(file), int64(len(file)))
 	vhAssert(err == nil, "archive-parses")
 	if err != nil {
@@ -112,7 +119,7 @@ func VH_C03_ZipMangle() {
 	}
 	if err != nil {
 		vhReach("refused") // vh:require refused
-		vhAssert(prefix != 0 || gap != 0, "contiguous-archive-not-refused")
+		vhAssert(prefix != 0 || gap != 0 || tail != 0, "contiguous-archive-not-refused")
 		return
 	}
 	out := vhApply(file, patch)
@@ -121,7 +128,7 @@ func VH_C03_ZipMangle() {
 		keep = []*vhMember{ms[0], ms[2]}
 	}
 	vhReach("rewritten") // vh:require rewritten
-	if prefix == 0 && gap == 0 {
+	if prefix == 0 && gap == 0 && tail == 0 {
 		vhAssert(vhCheckZip(out, keep), "kept-members-intact-at-recorded-offsets")
 	} else {
 		vhAssert(vhCheckZip(out, keep), "kept-members-intact-at-recorded-offsets/leading-data-or-gaps")
